@@ -2,14 +2,18 @@
     model's executable definitions (the same ones the theorems of Properties/C01.v are about). *)
 From Coq Require Import String List NArith.
 From Coq Require Import Strings.Byte.
-From GoBT Require Import lib.Bytes lib.Hex lib.Parse lib.VarInt lib.Sha256 model.Tx corr.Corr.
+From GoBT Require Import lib.Bytes lib.Hex lib.Parse lib.VarInt lib.Sha256 model.Tx model.TxsInto corr.Corr.
 Import ListNotations.
 Local Open Scope N_scope.
 
 Inductive case :=
 | CBuild (t : tx) (std_len ext_len : N) (txid_hex : string) (ext_sha : string)
 | CParse (b : bytes) (ok : bool) (used : N) (std_sha ext_sha : string) (from_bytes_ok : bool)
-| CList (b : bytes) (ok : bool) (used : N) (count : N) (all_ext_sha : string).
+| CList (b : bytes) (ok : bool) (used : N) (count : N) (all_ext_sha : string)
+(* Txs.ReadFrom into a destination that held [held] transactions before: verdict, bytes consumed and the number of
+   transactions it holds afterwards (model/TxsInto.v; the contents are compared with the fresh destination's on the
+   Go side, and the fresh destination's with [read_txs] in the CList case of the same bytes) *)
+| CListInto (held : N) (b : bytes) (ok : bool) (used : N) (count : N).
 
 (** long observations are compared through SHA-256 of the same canonical bytes on both sides *)
 Definition sha_is (b : bytes) (h : string) : bool := String.eqb (hex_of (sha256 b)) h.
@@ -37,6 +41,12 @@ Definition check (c : case) : bool :=
           sha_is (concat (map (fun p => tx_bytes true (p_tx p)) l)) all
       | PErr n => negb ok && (n =? used)
       | PFuel => false
+      end
+  | CListInto held b ok used count =>
+      match read_txs_into (dst_of held) b with
+      | IOk l n _ => ok && (n =? used) && (N.of_nat (List.length l) =? count)
+      | IErr _ n => negb ok && (n =? used)
+      | IFuel => false
       end
   end.
 
